@@ -12,6 +12,28 @@ def split_trees(ans):
     return re.findall(r" T\d+ \{(.*?)\} \{(.*?)\}(?= T\d+ \{|$)", ans)
 
 
+SPECS = [["char"], ["signed", "char"], ["unsigned", "char"], ["short"], ["short", "int"], ["signed", "short"], ["signed", "short", "int"], ["unsigned", "short"], ["unsigned", "short", "int"],
+         ["int"], ["signed"], ["signed", "int"], ["unsigned"], ["unsigned", "int"], ["long"], ["long", "int"], ["signed", "long"], ["signed", "long", "int"], ["unsigned", "long"],
+         ["unsigned", "long", "int"], ["long", "long"], ["long", "long", "int"], ["signed", "long", "long"], ["signed", "long", "long", "int"], ["unsigned", "long", "long"],
+         ["unsigned", "long", "long", "int"], ["float"], ["double"], ["long", "double"], ["_Bool"], ["float", "_Complex"], ["double", "_Complex"], ["long", "double", "_Complex"]]
+PLAIN_USES = ("char c0; short s0; int i0; unsigned u0; long l0; long long ll0; float f0; double d0; long double ld0; _Bool b0; double half(double x); float sq(float y);\n"
+              "void use%d(void) { c0 + 1; s0 + 1; i0 + 1; u0 + 1u; l0 + 1l; ll0 + 1ll; f0 * 2.0f; d0 * 2.0; ld0 * 2.0l; b0 ? 'a' : 1ul; half(d0); sq(f0); \"s\"; }")
+
+
+def shared_type_family():
+    """texts whose analysis touches the objects a Compilation SHARES between its trees (the canonical basic types, void, the program symbol):
+    every basic type in EVERY order of its specifiers (6.7.2p2: 'the type specifiers may occur in any order'), spread over twelve texts, each of which
+    also declares and uses objects of the plainly spelled types and literals of every basic type"""
+    decls = []
+    for sp in SPECS:
+        for k, perm in enumerate(sorted(set(itertools.permutations(sp)))):
+            decls.append(" ".join(perm))
+    texts = [[] for _ in range(12)]
+    for n, d in enumerate(decls):
+        texts[n % 12].append("%s v%d; %s *p%d; %s a%d[2]; %s fn%d(%s);" % (d, n, d, n, d, n, d, n, d))
+    return ["\n".join(t) + "\n" + PLAIN_USES % i for i, t in enumerate(texts)] + [PLAIN_USES % 99]
+
+
 def run(chk, only=None):
     chk.coverage["trusted_base"] = pv.TRUSTED_COMMON + [
         "hand-written model coq/C15Model.v of Compilation::addSyntaxTree/computeSemanticModel/semanticModel (dirty map); the per-tree analysis is the section variable `analyse`",
@@ -28,6 +50,9 @@ def run(chk, only=None):
     pool += ["typedef int T; T x; void f(void){ x + 1; }", "struct s { int m; } v; double g(double d){ return d * 2; }",
              "typedef double T; T y; void f(void) { y * 2; }", "int x; long f(void) { return x << 2; } struct s { char m; };",
              "enum e { A, B }; void h(void) { int A; A; }", "void k(void) { x * y; (z)(w); sizeof(q); }"]
+    fam0 = len(pool)
+    pool += shared_type_family()
+    fam = list(range(fam0, len(pool)))
     hx = lambda t: t.encode("utf-8", "replace").hex()
     reqs, meta = [], []
     # the reference: every text alone
@@ -38,6 +63,9 @@ def run(chk, only=None):
     for _ in range(120 if quick else 1500):
         k = rng.choice([2, 2, 3, 3, 4] if not quick else [2, 2, 3])
         idx = tuple(rng.randrange(len(pool)) for _ in range(k))
+        if _ % 3 == 0:                            # one history in three is over the shared-type family (the plain text among them)
+            idx = tuple(rng.choice(fam) for _i in range(k - 1)) + (fam[-1],)
+            idx = tuple(rng.sample(idx, len(idx)))
         ops = []
         order_p = list(range(k)); rng.shuffle(order_p)
         order_a = list(range(k)); rng.shuffle(order_a)
@@ -66,10 +94,11 @@ def run(chk, only=None):
                 ops.append("c%d" % i)
         combos.append((idx, ops))
     # all orders over a fixed small set (exhaustive orders of add/compute for 3 trees)
-    base3 = (len(pool) - 6, len(pool) - 5, len(pool) - 4)
-    for pa in itertools.permutations(range(3)):
-        for pc in itertools.permutations(range(3)):
-            combos.append((base3, ["a%d" % i for i in pa] + ["c%d" % i for i in pc]))
+    base3 = (fam0 - 6, fam0 - 5, fam0 - 4)
+    for b3 in (base3, (fam[0], fam[-1], fam[5]), (fam[3], fam[8], fam[-1])):
+        for pa in itertools.permutations(range(3)):
+            for pc in itertools.permutations(range(3)):
+                combos.append((b3, ["a%d" % i for i in pa] + ["c%d" % i for i in pc]))
     for idx, ops in combos:
         reqs.append("hist %s %d %s %s" % (OPTS, len(idx), " ".join(hx(pool[i]) for i in idx), " ".join(ops))); meta.append(("hist", idx, ops))
     if only:
@@ -117,9 +146,9 @@ def run(chk, only=None):
                 bad.append((r, ("proc",), "answer differs between processes with different heap layouts", {"first": x[:200], "other": y[:200]})); break
     chk.coverage["evaluations"] = len(reqs) + sum(len(o) for o in outs)
     chk.coverage["distinct_nontrivial"] = len({(m[1], tuple(m[2])) for m in meta if m[0] == "hist" and len(m[1]) >= 2})
-    chk.coverage["rule"] = ("%d texts (translation units of the repository's tests with function bodies + 6 hand-written ones that share names across trees) analysed alone, then %d histories of "
+    chk.coverage["rule"] = ("%d texts (translation units of the repository's tests with function bodies + 6 hand-written ones that share names across trees + 13 texts declaring every basic type under every order of its specifiers, with pointers, arrays, functions and literals of them) analysed alone, then %d histories of "
                             "parse/add/compute/query over 2..%d of them in one Compilation (phase-separated, per-tree, repeated computes and queries, random valid interleavings, all 36 add/compute orders "
-                            "of a fixed triple): every tree's parse dump and semantic dump (symbols with types, expression types, diagnostics) must equal the dump obtained alone; the same requests in "
+                            "of three fixed triples): every tree's parse dump and semantic dump (symbols with types, expression types, diagnostics) must equal the dump obtained alone; the same requests in "
                             "%d processes with different heap layouts must answer identically. non-trivial = a history over at least two trees"
                             % (len(pool), len(combos), 3 if quick else 4, len(outs)))
     chk.coverage["samples"] = [reqs[len(pool)][:300], " ".join(meta[len(pool) + 3][2]) if len(meta) > len(pool) + 3 else ""]
